@@ -293,7 +293,7 @@ VARIANTS = [
     ('connect_classic drops the transport test', 'bumble/device.py', "                # match BR/EDR connection event against peer address\n                connection.transport == PhysicalTransport.BR_EDR\n                and connection.peer_address == peer_address\n", "                connection.peer_address == peer_address\n", 'fire', 'C06.waiter-match'),
     ('connect_le accepts any role', 'bumble/device.py', "                connection.transport == PhysicalTransport.LE\n                and connection.role == hci.Role.CENTRAL\n", "                connection.transport == PhysicalTransport.LE\n", 'fire', 'C06.waiter-match'),
     ('handle allocation forgets SCO links', 'bumble/controller.py', "                self.classic_connections.values(),\n                self.sco_links.values(),\n                self.central_cis_links.values(),\n", "                self.classic_connections.values(),\n                self.central_cis_links.values(),\n", 'fire', 'C06.handles'),
-    ('LE disconnect only local', 'bumble/controller.py', "                connection.send_ll_control_pdu(ll.TerminateInd(command.reason))\n                self.on_le_disconnected(connection, command.reason)\n", "                self.on_le_disconnected(connection, command.reason)\n", 'fire', 'C06.disconnect-both'),
+    ('LE disconnect only local', 'bumble/controller.py', "                self._notify_peer_of_teardown(\n                    lambda: connection.send_ll_control_pdu(\n                        ll.TerminateInd(command.reason)\n                    )\n                )\n                self.on_le_disconnected(connection, command.reason)\n", "                self.on_le_disconnected(connection, command.reason)\n", 'fire', 'C06.disconnect-both'),
     ('peripheral stores under advertiser address', 'bumble/controller.py', "        peer_address = packet.initiator_address\n", "        peer_address = packet.advertiser_address\n", 'fire', 'C06.addr-origin'),
     ('benign: debug message', 'bumble/controller.py', "        logger.debug(f'New PERIPHERAL connection handle: 0x{connection_handle:04X}')\n", "        logger.debug(f'new PERIPHERAL connection, handle 0x{connection_handle:04X}')\n", 'silent', ''),
     ('incoming connection wipes the pending outgoing one', 'bumble/controller.py', "        advertiser.stop()\n\n    def on_le_disconnected", "        advertiser.stop()\n        self.pending_le_connection = None\n\n    def on_le_disconnected", 'fire', 'C06.pending-owner'),
